@@ -25,13 +25,13 @@ Print Assumptions C08_accepted_kernel_never_leaves_extents.
    no index is allowed, so the theorem above holds for input memories in which
    those pointers are completely unmapped. *)
 Theorem C08_cell_kernel_entity_pointer_unmapped :
-  forall w nc nx elo ehi np plo phi i,
-    idx_allowed (mk_ictx w nc nx 0 elo ehi np plo phi) id_e i = false.
+  forall w c nx elo ehi np plo phi i,
+    idx_allowed (mk_ictx w c nx 0 elo ehi np plo phi) id_e i = false.
 Proof. exact no_entity_allowed. Qed.
 Print Assumptions C08_cell_kernel_entity_pointer_unmapped.
 
 Theorem C08_cell_kernel_perm_pointer_unmapped :
-  forall w nc nx ne elo ehi plo phi i,
-    idx_allowed (mk_ictx w nc nx ne elo ehi 0 plo phi) id_p i = false.
+  forall w c nx ne elo ehi plo phi i,
+    idx_allowed (mk_ictx w c nx ne elo ehi 0 plo phi) id_p i = false.
 Proof. exact no_perm_allowed. Qed.
 Print Assumptions C08_cell_kernel_perm_pointer_unmapped.
